@@ -105,6 +105,10 @@ def decode_diff(hexval):
     return d
 
 
+def tip_key(t):
+    return None if t is None else (t.get("id"), t.get("height"))
+
+
 def db_tip(dump):
     best = None
     for k, v in dump:
@@ -162,7 +166,7 @@ def evaluate(ck, recs):
                 fail("c05:restart:prepare-cache-failed", "PrepareCache on a fresh Chain over the final database failed (%s); "
                      "genesis height %d, maxBlockCache %d" % (r["prepare_cache_err"], r["genesis_height"], r["maxcache"]), r, -1,
                      observed=r["prepare_cache_err"])
-            elif want is not None and r.get("prepare_cache_tip") != want:
+            elif want is not None and tip_key(r.get("prepare_cache_tip")) != tip_key(want):
                 fail("c05:restart:cached-tip-differs", "after PrepareCache the cached tip %s differs from the database tip %s" % (
                     json.dumps(r.get("prepare_cache_tip")), json.dumps(want)), r, -1, observed=r.get("prepare_cache_tip"))
         for ix, st in enumerate(r["steps"]):
@@ -189,6 +193,12 @@ def evaluate(ck, recs):
             if dbt is not None and (tip is None or tip["height"] != dbt[0] or tip["id"] != dbt[1]):
                 anomaly("c05:tip:%s" % ("cache-empty" if tip is None else "cache-differs"),
                         "after %s step #%d the cached tip %s differs from the database tip %s" % (op, ix, json.dumps(tip), dbt), tip)
+            if tip is not None and tip.get("body_ok") is False:
+                anomaly("c05:tip:cached-body-differs", "after %s step #%d the cached tip block %s (transactions, assets) does not encode to the "
+                        "block stored under its id" % (op, ix, tip["id"][:16]), tip)
+            if st.get("flush_diff"):
+                anomaly("c05:flush:reads-differ-after-flush", "after %s step #%d a memtable flush (what a restart does) changes what is read at "
+                        "keys %s" % (op, ix, st["flush_diff"][:6]), st["flush_diff"][:20])
             if not ok:
                 if st["pre"] != st["post"]:
                     anomaly("c05:%s:failed-step-changed-db:%s" % (op, st.get("err")),
@@ -275,6 +285,10 @@ def evaluate(ck, recs):
                     ck.nontrivial(("restore", b["id"], sp["ix"], ix))
                 else:
                     bump("restore oracle skipped (%s)" % ("dup-tx" if (damaged or sp["dup"]) else "below finality"))
+        if r.get("final_flush_diff"):
+            key = DUP_KEY if damaged else "c05:flush:reads-differ-after-flush"
+            fail(key, "at the end of the history a memtable flush (what a restart does) changes what is read at keys %s" % r["final_flush_diff"][:6],
+                 r, -1, observed=r["final_flush_diff"][:20])
     ra = ck.coq_eval(IMPORTS, "apply_case", "check_apply", apply_terms, shard=40, tag="apply")
     rd = ck.coq_eval(IMPORTS, "delete_case", "check_delete", delete_terms, shard=40, tag="delete")
     rr = ck.coq_eval(IMPORTS, "restore_case", "check_restore", restore_terms, shard=40, tag="restore")
@@ -361,6 +375,12 @@ def evaluate_e(ck, recs):
             if dbt is not None and (tip is None or tip["height"] != dbt[0] or tip["id"] != dbt[1]):
                 fail("c05:executer:tip", "after %s step #%d the cached tip %s differs from the database tip %s" % (
                     op, ix, json.dumps(tip), dbt), r, ix, observed=tip)
+            if tip is not None and tip.get("body_ok") is False:
+                fail("c05:executer:tip:cached-body-differs", "after %s step #%d the cached tip block (transactions, assets) does not encode to "
+                     "the block stored under its id" % (op, ix), r, ix, observed=tip)
+            if st.get("flush_diff"):
+                fail("c05:executer:flush:reads-differ-after-flush", "after %s step #%d a memtable flush (what a restart does) changes what is "
+                     "read at keys %s" % (op, ix, st["flush_diff"][:6]), r, ix, observed=st["flush_diff"][:20])
             if not ok:
                 if st["pre"] != st["post"]:
                     fail("c05:executer:%s:failed-step-changed-db:%s" % (op, st.get("err")),
@@ -421,9 +441,12 @@ def evaluate_e(ck, recs):
                 if sp["tip"] != db_tip(st["post"]):
                     fail("c05:executer:restore:db-tip", "delete step #%d: database tip differs from the tip before apply #%d" % (ix, sp["ix"]), r, ix)
                 ck.nontrivial(("erestore", st["id"], sp["ix"], ix))
+        if r.get("final_flush_diff"):
+            fail("c05:executer:flush:reads-differ-after-flush", "at the end of the history a memtable flush changes what is read at keys %s" %
+                 r["final_flush_diff"][:6], r, -1, observed=r["final_flush_diff"][:20])
         rs = r.get("restart")
         if rs is not None:
-            if rs.get("err") is not None or rs.get("tip") != rs.get("db_tip"):
+            if rs.get("err") is not None or tip_key(rs.get("tip")) != tip_key(rs.get("db_tip")) or (rs.get("tip") or {}).get("body_ok") is False:
                 fail("c05:executer:restart", "after Restart (Init incl. PrepareCache) err=%s cached tip %s database tip %s" % (
                     rs.get("err"), json.dumps(rs.get("tip")), json.dumps(rs.get("db_tip"))), r, -1, observed=rs)
         tw = r.get("twin")
@@ -451,7 +474,7 @@ def evaluate_e(ck, recs):
                 tw_terms.append("(%s, %s, %s, %s, [%s])" % (dump_term(it, ft), dump_term(it, fa), optN(ev), optN(dfb),
                                                             "; ".join(str(x) for x in sorted(temps))))
                 tw_ctx.append(r)
-                if tw["tip_a"] != tw["tip_t"] or tw["votes_a"] != tw["votes_t"]:
+                if tip_key(tw["tip_a"]) != tip_key(tw["tip_t"]) or tw["votes_a"] != tw["votes_t"]:
                     fail("c05:executer:twin:tip-or-bft-store", "reorg probe: node (apply B, delete B, apply B') and twin (apply B') differ in "
                          "tip or BFT store digest", r, -2, observed={"tip_a": tw["tip_a"], "tip_t": tw["tip_t"]})
                 ck.nontrivial(("twin", tw["b2"]["id"]))
